@@ -125,7 +125,7 @@ func init() {
 		ID:    "C12",
 		Level: "exploration",
 		Rule: "(a) every byte string of length <= 3 (quick) / <= 4 (thorough) over 22 YAML-significant bytes (incl. 0xFF) as a whole input file and spliced at three anchor points of a valid configuration; (b) 41 schema positions x 30 node shapes (null, bools, numbers, non-finite and overflowing numbers, strings, sequences, mappings with scalar / numeric / sequence keys, anchors and aliases, tags, timestamps, merge keys, block indicators) singly and (thorough: all; quick: every pair involving a composite shape in the first position) in pairs; " +
-			"(c) every glob pattern of length <= 3 (quick) / <= 4 (thorough) over {*, ?, [, ], \\, a, /, ., -, ^}; (d) all 64 presence combinations of the 6 flags; (e) complete digraphs K2..K5 (thorough K6) as service and as parameter dependency graphs; (f) nesting depth 2^k up to 4096 and names of 64 KiB. Oracle: returns, exit status 0 or 1, exit 0 => the output parses as Go, exit != 0 => no output written; non-trivial = rejected or contains a non-alphanumeric byte; distinct = distinct input",
+			"(c) every glob pattern of length <= 3 (quick) / <= 4 (thorough) over {*, ?, [, ], \\, a, /, ., -, ^}; (d) all 64 presence combinations of the 6 flags; (e) complete digraphs K2..K5 (thorough K6) as service and as parameter dependency graphs; (f) nesting depth 2^k up to 4096 and names of 64 KiB; (g) every string of length <= 4 (quick) / <= 5 (thorough) over {(, ), \", a, +, [, ], ., comma, 1} as the argument text of env / envInt / todo chunks; (h) all pairs and triples of the 11 semantic defects of C16 x 4 flag combinations. Oracle: returns, exit status 0 or 1, exit 0 => the output parses as Go, exit != 0 => no output written; non-trivial = rejected or contains a non-alphanumeric byte; distinct = distinct input",
 		Assumptions: []string{"a hang is a case exceeding the 120 s watchdog in the worker and in three isolated re-runs; 20 s on these small inputs is already reported as 'slow'", "printer write errors (closed stdout) are outside the input space"},
 		BudgetQuick: 280 * time.Second, BudgetThorough: 1700 * time.Second,
 		Run: func(w *W) {
@@ -242,6 +242,47 @@ func init() {
 					}
 				})
 			}
+			// (g) function-call chunks of the built-in functions whose argument text contains Go operators / brackets
+			F := 4
+			if !w.Env.Quick() {
+				F = 5
+			}
+			words([]string{"(", ")", `"`, "a", "+", "[", "]", ".", ",", "1"}, F, func(x string) {
+				id := fmt.Sprintf("fnchunk/%q", x)
+				w.Case(id, func(c *C) {
+					c.Distinct("all", id)
+					c.Distinct("nontrivial", id)
+					y := (&Cfg{Params: []Param{{"p", "%env(" + x + ")%"}, {"q", "a%envInt(" + x + ")%%todo(" + x + ")%"}}}).YAML()
+					c12check(c, id, []File{{"c.yaml", y}}, std, "fnchunk")
+				})
+			})
+			// (h) semantic defect mixes (the generators of C16) under the universal oracle, all flag combinations
+			combos(len(c16defects), 2, func(idx []int) {
+				sel := append([]int{}, idx...)
+				w.Case(fmt.Sprintf("semantic/%v", sel), func(c *C) {
+					for _, extra := range []int{-1, 0, 1, 2, 3, 4, 5, 6, 7, 8, 9, 10} {
+						cfg := c16base()
+						for _, i := range sel {
+							c16defects[i].apply(cfg)
+						}
+						if extra >= 0 && extra != sel[0] && extra != sel[1] && extra < len(c16defects) {
+							c16defects[extra].apply(cfg)
+						}
+						for fl := 0; fl < 4; fl++ {
+							args := append([]string{}, std...)
+							if fl&1 != 0 {
+								args = append(args, "--ignore-missing-params")
+							}
+							if fl&2 != 0 {
+								args = append(args, "--ignore-missing-services")
+							}
+							c12check(c, c.ID, []File{{"c.yaml", cfg.YAML()}}, args, "semantic")
+						}
+					}
+					c.Distinct("all", c.ID)
+					c.Distinct("nontrivial", c.ID)
+				})
+			})
 			// (e) dense graphs
 			maxK := 5
 			if !w.Env.Quick() {
